@@ -1,7 +1,7 @@
 (* The single entry point of the executable model: one S-expression in, one out. *)
 From Coq Require Import String.
 From Morph Require Import Base.UStr Base.Sexp Gen.Tables Model.SqlTypes Model.Spec20 Model.Terms Model.Data Model.Engine
-  Model.Mapping Model.Partition Model.Spec Model.Wire Model.NQuads Model.Config Model.Writer Model.Functions.
+  Model.Mapping Model.Partition Model.Spec Model.Wire Model.NQuads Model.Config Model.Writer Model.Functions Model.Fragment.
 Local Open Scope N_scope.
 
 Definition run_c20 (tag : ustr) (args : list sexp) : option sexp :=
@@ -58,6 +58,12 @@ Definition run_map (tag : ustr) (args : list sexp) : option sexp :=
                    (* a case the function registry does not follow (non-ASCII case mapping ...) is unmodelled for the Spec too *)
                    Some (if case_unmodelled s' d' || (match engine_lines c' s' d' ex' with Err EUnmodelled => true | _ => false end)
                          then sx_result (Err EUnmodelled) else L [A (u "ok"); sx_strs (spec_case_lines c' s' d' ex')])
+    | _ => None
+    end
+  else if tag_is tag "applies" then
+    (* does the end-to-end theorem of C01 (Proofs/DocEngineP.v) cover this configuration and document? *)
+    match args with
+    | [c; d] => do c' <- de_cfg c; do d' <- de_doc d; Some (L [A (u "ok"); sx_bool (theorem_applies (cc_nquads c') d')])
     | _ => None
     end
   else if tag_is tag "rules" then
